@@ -177,8 +177,54 @@ func (v *Verifier) specFunc(se *SpecEnv, name string, c *ast.CallExpr) (Value, b
 		}
 		return &AggV{out}, true
 	}
-	if strings.HasPrefix(name, "NR_") {
-		return nil, false
+	// uninterpreted specification functions: uf_NAME(args) has the sort of its first argument,
+	// ufint_NAME(args) is an integer, ufbool_NAME(args) a Boolean. Functions defined by an "smt" statement of
+	// the contract file (define-fun-rec) are called by their SMT name through the same syntax.
+	for _, pre := range []string{"uf_", "ufint_", "ufbool_"} {
+		if strings.HasPrefix(name, pre) {
+			args := make([]*Term, len(c.Args))
+			for i, a := range c.Args {
+				av := se.rvalue(se.eval(a))
+				if p, ok := av.(*PtrV); ok {
+					av = se.rvalue(se.deref(p))
+				}
+				switch x := av.(type) {
+				case *Term:
+					args[i] = x
+				case *ArrV:
+					args[i] = x.Arr
+				case *SliceV:
+					// a slice argument denotes its backing array (indexing is absolute: offset must be 0)
+					if x.Obj == nil {
+						unsup("uninterpreted function applied to a nil slice")
+					}
+					if !x.Off.IsConst() || x.Off.K.Sign() != 0 {
+						unsup("uninterpreted function applied to a slice with non-zero offset")
+					}
+					ar, ok := v.getPath(v.content(se.state(), x.Obj), x.Path).(*ArrV)
+					if !ok {
+						unsup("uninterpreted function applied to a concrete-array slice")
+					}
+					args[i] = ar.Arr
+				default:
+					unsup("argument %d of %s is not a scalar or slice", i, name)
+				}
+			}
+			var rs *Sort
+			switch pre {
+			case "uf_":
+				rs = args[0].S
+			case "ufint_":
+				rs = SInt
+			default:
+				rs = SBool
+			}
+			fname := name[len(pre):]
+			if d, ok := v.smtFuncs[fname]; ok {
+				rs = d
+			}
+			return F.App(fname, rs, args...), true
+		}
 	}
 	return nil, false
 }
